@@ -47,6 +47,7 @@ type OpInfo struct {
 	Kind string // send recv select close lock unlock wgadd wgwait atomic sleep choose ...
 	Obj  string // label of the object (creation site + name), or ""
 	Site string // source position of the operation
+	ID   string // per-execution identity of the object(s), comma separated
 }
 
 // Point is a choice point handed to the Chooser.
@@ -142,13 +143,14 @@ func (f *Failure) Error() string { return f.Kind + ": " + f.Msg }
 
 // TraceEvent is one executed step.
 type TraceEvent struct {
-	Step int    `json:"step"`
-	G    int    `json:"g"`
-	Name string `json:"name"`
-	Op   string `json:"op"`
-	Obj  string `json:"obj,omitempty"`
-	Site string `json:"site,omitempty"`
-	Res  string `json:"res,omitempty"`
+	Step  int    `json:"step"`
+	G     int    `json:"g"`
+	Name  string `json:"name"`
+	Op    string `json:"op"`
+	Obj   string `json:"obj,omitempty"`
+	ObjID string `json:"objid,omitempty"`
+	Site  string `json:"site,omitempty"`
+	Res   string `json:"res,omitempty"`
 }
 
 // Config configures one execution.
@@ -598,7 +600,7 @@ func (w *World) step(run []*G) {
 		if a.Case >= 0 {
 			res += fmt.Sprintf(" case=%d", a.Case)
 		}
-		w.Trace = append(w.Trace, TraceEvent{Step: w.Steps, G: g.ID, Name: g.Name, Op: inf.Kind, Obj: inf.Obj, Site: inf.Site, Res: res})
+		w.Trace = append(w.Trace, TraceEvent{Step: w.Steps, G: g.ID, Name: g.Name, Op: inf.Kind, Obj: inf.Obj, ObjID: inf.ID, Site: inf.Site, Res: res})
 	}
 	if done {
 		if g.state == gPending { // not already re-queued by the op itself
